@@ -224,11 +224,18 @@ type ValOpts struct {
 	Catalogue   []reflect.Type
 	NilChance   int // 1/N chance of nil for pointers, maps, slices, interfaces
 	NoEmptyKeys bool
+	BigStrings  bool // occasionally produce multi-KiB strings dense in characters that need escaping
 }
 
 var sampleStrings = []string{"", "a", "hello", "héllo", "日本語", "😀", "<tag>&amp;", "line1\nline2", "tab\t", `quote"back\slash`, "  ", "\x00\x1f", "/path/to", "0", "null", "true", "-1.5e3", " ", "k<x>&"}
 
 func (r *Rng) StringValue(o *ValOpts) string {
+	if o.BigStrings && r.Chance(1, 50) {
+		// long and dense in characters that expand when escaped: the output buffer of
+		// the escaping passes has to grow several times
+		unit := []string{"<&>", "<", " a", "\"\\", "\x01", "&amp;<b>"}[r.Intn(6)]
+		return strings.Repeat(unit, r.Range(200, 4000))
+	}
 	switch r.Intn(8) {
 	case 0, 1, 2:
 		return sampleStrings[r.Intn(len(sampleStrings))]
